@@ -104,6 +104,7 @@ func runC16(c *Ctx) {
 	c16R3(e)
 	c16R4(e)
 	c16StaleToken(e)
+	c16TokenRules(e)
 	c16R5(e)
 }
 
@@ -1621,8 +1622,14 @@ func c16BearerKeys(e *c16Env) {
 					same = false
 				}
 			}
+			detailKS := "the token is fetched for a scope list other than the one it is cached under"
+			if cc != nil && same {
+				if why := c16KeyMatchesScopesOnPaths(cc); why != "" {
+					same, detailKS = false, why
+				}
+			}
 			c.Check(R, key+"|fetch-uses-keyed-scopes", call.Pos(), same,
-				ifelse(same, "the fetch callback is given the same scope list the key was computed from", "the token is fetched for a scope list other than the one it is cached under"))
+				ifelse(same, "the fetch callback is given the same scope list the key was computed from (also path by path where the key is computed once)", detailKS))
 		}
 	}
 	if n == 0 {
